@@ -106,6 +106,38 @@ static bool member(LocalNetwork& n, const std::vector<std::string>& t)
   else if (q == "null_space") { int v = n.null_space(); std::cout << "int " << v << "\n"; }
   else if (q == "m_0_aposteriori_value") out_val(n.m_0_aposteriori_value());
   else if (q == "is_adjusted") std::cout << "flag " << (n.is_adjusted() ? 1 : 0) << "\n";
+  // round 4 (seeded/C04-seed4): what depends on the regularisation the CURRENT solver object applies.  Each op follows
+  // the documented protocol (adjust first: solve()), so it is compared with a fresh network like the ensuring members.
+  else if (q == "adjusted_stdevs") {
+    n.solve();
+    std::cout << "vec";
+    for (int i = 1; i <= n.unknowns_count(); i++) std::cout << " " << vp::hex(n.unknown_stdev(i));
+    std::cout << "\n";
+  }
+  else if (q == "adjusted_ellipses") {
+    n.solve();
+    std::cout << "vec";
+    for (auto& kv : n.PD) {
+      const LocalPoint& p = kv.second;
+      if (!p.free_xy() || !p.index_x()) continue;
+      double ea, eb, alfa;
+      n.std_error_ellipse(kv.first, ea, eb, alfa);
+      std::cout << " " << vp::hex(ea) << " " << vp::hex(eb);
+    }
+    std::cout << "\n";
+  }
+  else if (q == "inner_constraints") {
+    // corrections of the constrained points: sum dx, sum dy, sum (x dy - y dx) [rotation, x,y in km], sum |d|, count
+    const GNU_gama::local::Vec& x = n.solve();
+    double sx = 0, sy = 0, sr = 0, sa = 0; int cnt = 0;
+    for (auto& kv : n.PD) {
+      const LocalPoint& p = kv.second;
+      if (!p.free_xy() || !p.index_x() || !p.constrained_xy()) continue;
+      const double dx = x(p.index_x()), dy = x(p.index_y());
+      sx += dx; sy += dy; sr += (p.x() * dy - p.y() * dx) / 1000.0; sa += std::fabs(dx) + std::fabs(dy); cnt++;
+    }
+    std::cout << "vec " << vp::hex(sx) << " " << vp::hex(sy) << " " << vp::hex(sr) << " " << vp::hex(sa) << " " << vp::hex(double(cnt)) << "\n";
+  }
   else if (q == "raw") {
     const std::string& w = t.at(1);
     if ((w == "stdev_obs" && I(2) > GamaVerifProbe::dim_sigma_L(n)) ||
